@@ -38,7 +38,7 @@ func TestMain(m *testing.M) {
 				r.Rule += c17AppRule
 				r.Assumptions = append(r.Assumptions, "application level: 'yyyy-mm-dd' means midnight UTC on that day, as the program's documentation says; a constellation is judged only when that instant lies in the constellation week of the data")
 			},
-			Scenarios: scenariosC17, QuickBudget: 30 * time.Second, ThoroughBudget: 60 * time.Second})
+			Scenarios: scenariosC17, Post: realBinaryC17, QuickBudget: 30 * time.Second, ThoroughBudget: 60 * time.Second})
 	default:
 		os.Exit(m.Run())
 	}
@@ -148,13 +148,15 @@ func scenariosC17(tier string) []*mcrt.Scenario {
 
 const heading = "RTCM data\n\nNote: times are in UTC.  RINEX format uses GPS time, which is currently (Jan 2021)\n18 seconds ahead of UTC\n\n"
 
-func expected(stream []byte) (text string, fault string) {
+func expected(stream []byte) (text string, fault string) { return expectedAt(t0, stream) }
+
+func expectedAt(start time.Time, stream []byte) (text string, fault string) {
 	ch := make(chan byte, len(stream)+1)
 	for _, b := range stream {
 		ch <- b
 	}
 	close(ch)
-	h := rtcmh.New(t0, slog.LevelDebug)
+	h := rtcmh.New(start, slog.LevelDebug)
 	pb := pushback.New(ch)
 	defer func() {
 		if p := recover(); p != nil {
@@ -244,4 +246,51 @@ func scenariosC11(tier string) []*mcrt.Scenario {
 		}
 	}
 	return scs
+}
+
+// realBinaryC17: the shipped displayrtcm3 from main() on: "displayrtcm3 file
+// date" for every date of the week of a recorded file, on hosts in three time
+// zones.  The whole output must be what the library displays for that start
+// time (nothing lost at exit), and every 'Time' line must be the true time.
+func realBinaryC17(r *harness.EvRun) {
+	sunday := time.Date(2023, 5, 7, 0, 0, 0, 0, time.UTC)
+	u := sunday.Add(3*24*time.Hour + 12*time.Hour)
+	cons := []ref.Constellation{ref.GPS, ref.Glonass, ref.Galileo, ref.Beidou}
+	var stream []byte
+	stream = append(stream, ref.TypedFrame(1005, 19, nil)...)
+	for _, c := range cons {
+		stream = append(stream, ref.HeaderOnlyMSM(c.MSMType(true), c.Timestamp(u))...)
+	}
+	stream = append(stream, []byte("$GPGGA,tail\r\n")...)
+	var cases []harness.RealCase
+	for _, tz := range []string{"UTC", "Asia/Tokyo", "America/Los_Angeles"} {
+		for d := 0; d < 7; d++ {
+			day := sunday.AddDate(0, 0, d)
+			arg := day.Format("2006-01-02")
+			want, _ := expectedAt(day, stream)
+			cases = append(cases, harness.RealCase{
+				Name: fmt.Sprintf("displayrtcm3 recorded.rtcm %s TZ=%s", arg, tz),
+				Args: []string{"%DIR%/recorded.rtcm", arg}, Files: map[string]string{"recorded.rtcm": string(stream)}, Env: []string{"TZ=" + tz},
+				Check: func(stdout []byte, dir string, exit error) (string, string) {
+					var times []string
+					for _, l := range strings.Split(string(stdout), "\n") {
+						if strings.HasPrefix(l, "Time ") {
+							times = append(times, strings.TrimPrefix(l, "Time "))
+						}
+					}
+					if len(times) == len(cons) {
+						for i, c := range cons {
+							if c.WeekStart(day).Equal(c.WeekStart(u)) && times[i] != u.Format(utils.DateLayout) {
+								return "reported-time-wrong-for-a-date-of-the-same-week constellation=" + ref.ConstNames[c], fmt.Sprintf("reported %q, true %q", times[i], u.Format(utils.DateLayout))
+							}
+						}
+					}
+					if string(stdout) != want {
+						return "output-of-the-program-differs-from-the-display-of-its-messages", fmt.Sprintf("%d bytes written, %d expected (exit: %v)", len(stdout), len(want), exit)
+					}
+					return "", ""
+				}})
+		}
+	}
+	harness.RealBinary(r, "C17", "MC_REAL_BIN_displayrtcm3", cases)
 }
